@@ -1,8 +1,8 @@
 (* Correspondence cases for property C11: what the harness observed when it ran the real parser
    and planners on a query, and the functions that compare it with the model.
    Executable definitions only. *)
-From Coq Require Import List ZArith String Ascii Bool Uint63.
-From Qryn Require Import model.TqSql model.Traceql model.TraceqlPlan.
+From Coq Require Import List ZArith QArith String Ascii Bool Uint63.
+From Qryn Require Import model.TqSql model.Traceql model.TraceqlPlan model.TraceqlSem.
 Import ListNotations.
 Open Scope string_scope.
 
@@ -55,7 +55,8 @@ Record case := {
   c_q : script;
   c_mode : mode;
   c_ctx : ctx;
-  c_obs : list (Z * obs)      (* per call: RandomFilter.I of that call, observation *)
+  c_obs : list (Z * obs);     (* per call: RandomFilter.I of that call, observation *)
+  c_dbs : list db             (* generated attribute-index contents for the semantic oracle *)
 }.
 
 Definition with_rf_i (c : ctx) (i : Z) : ctx :=
@@ -70,7 +71,7 @@ Definition perr_eqb (a b : perr) : bool :=
   | EUnsupportedAttr, EUnsupportedAttr | EUnsupportedStmt, EUnsupportedStmt | ENotSupportedOp, ENotSupportedOp
   | ENotTimeValue, ENotTimeValue | EBadDuration, EBadDuration | EBadNumber, EBadNumber | EUnquote, EUnquote
   | EComplexNotSupported, EComplexNotSupported | EEmptySelAgg, EEmptySelAgg | EEmptySelOr, EEmptySelOr
-  | EOrEmptySel, EOrEmptySel => true
+  | EOrEmptySel, EOrEmptySel | EAggNoAttr, EAggNoAttr => true
   | _, _ => false
   end.
 
@@ -134,3 +135,158 @@ Definition case_illformed (cs : case) : bool :=
   existsb (fun s => negb (wf_sel s)) (stmts_of cs 1 (c_obs cs)).
 Definition spec_violations (l : list case) : list Z :=
   map c_id (filter case_illformed l).
+
+(* ================================================================ semantic oracle *)
+(* Concrete instances of the three library functions for the generated databases.  The theorems
+   hold for every instance; the oracle needs one.  re_toy: literals, '.', [0-9], postfix * and +,
+   ^ and $ anchors, top-level alternation; partial match like RE2's match(). *)
+Inductive atom := AChar (c : ascii) | AAny | ADigit | AEnd.
+Inductive quant := QOne | QStar | QPlus.
+Definition atom_ok (a : atom) (c : ascii) : bool :=
+  match a with AChar x => Ascii.eqb x c | AAny => true | ADigit => is_digit c | AEnd => false end.
+Fixpoint re_items (fuel : nat) (p : string) : list (atom * quant) :=
+  match fuel with
+  | O => []
+  | S f =>
+    let '(a, rest) :=
+      match p with
+      | EmptyString => (None, EmptyString)
+      | String "." r => (Some AAny, r)
+      | String "$" EmptyString => (Some AEnd, EmptyString)
+      | String "[" r => if has_prefix "0-9]" r then (Some ADigit, drop 4 r) else (Some (AChar "["), r)
+      | String c r => (Some (AChar c), r)
+      end in
+    match a with
+    | None => []
+    | Some at_ =>
+        match rest with
+        | String "*" r => (at_, QStar) :: re_items f r
+        | String "+" r => (at_, QPlus) :: re_items f r
+        | _ => (at_, QOne) :: re_items f rest
+        end
+    end
+  end.
+Fixpoint m_here (p : list (atom * quant)) (s : string) {struct p} : bool :=
+  match p with
+  | [] => true
+  | (AEnd, _) :: _ => match s with EmptyString => true | _ => false end
+  | (a, QOne) :: p' => match s with String c s' => atom_ok a c && m_here p' s' | EmptyString => false end
+  | (a, QStar) :: p' =>
+      (fix star (t : string) : bool :=
+         m_here p' t || match t with String c t' => atom_ok a c && star t' | EmptyString => false end) s
+  | (a, QPlus) :: p' =>
+      match s with
+      | String c s' => atom_ok a c &&
+          (fix star (t : string) : bool :=
+             m_here p' t || match t with String c' t' => atom_ok a c' && star t' | EmptyString => false end) s'
+      | EmptyString => false
+      end
+  end.
+Fixpoint m_any (p : list (atom * quant)) (s : string) : bool :=
+  m_here p s || match s with String _ s' => m_any p s' | EmptyString => false end.
+Fixpoint split_bar (s cur : string) : list string :=
+  match s with
+  | EmptyString => [cur]
+  | String "|" r => cur :: split_bar r EmptyString
+  | String c r => split_bar r (cur ++ String c EmptyString)
+  end.
+Definition re_alt (p s : string) : bool :=
+  match p with
+  | String "^" r => m_here (re_items (S (String.length r)) r) s
+  | _ => m_any (re_items (S (String.length p)) p) s
+  end.
+Definition re_toy (p s : string) : bool := existsb (fun a => re_alt a s) (split_bar p EmptyString).
+
+Definition float_toy (s : string) : option Q := match parse_dec s with Some d => Some (dec_Q d) | None => None end.
+Fixpoint hash_toy (s : string) : Z := match s with EmptyString => 7%Z | String c r => (Z.of_N (N_of_ascii c) + 31 * hash_toy r)%Z end.
+
+Definition row_of_irow (r : irow) : row :=
+  [("date", VStr (r_date r)); ("key", VStr (r_key r)); ("val", VStr (r_val r)); ("trace_id", VStr (r_trace r));
+   ("span_id", VStr (r_span r)); ("timestamp_ns", VInt (r_ts r)); ("duration", VInt (r_dur r))].
+
+(* the rows of the CTE index_grouped of a search statement: which traces, which spans *)
+Fixpoint eval_until (c : ctx) (d : db) (target : string) (withs : list (string * select)) (cte : env) : option table :=
+  match withs with
+  | [] => None
+  | (a, q) :: r =>
+      match eval_sel re_toy float_toy hash_toy [(attrs_table c, map row_of_irow d)] 12 cte false q with
+      | Some t => if String.eqb a target then Some t else eval_until c d target r ((a, t) :: cte)
+      | None => None
+      end
+  end.
+Definition index_rows (c : ctx) (d : db) (s : select) : option (list (string * list string)) :=
+  match eval_until c d "index_grouped" (s_withs s) [] with
+  | None => None
+  | Some t =>
+      all_some (map (fun r => match lookup "trace_id" r, lookup "span_id" r with
+                              | Some (VStr tr), Some (VArr l) =>
+                                  match all_some (map (fun v => match v with VStr x => Some x | _ => None end) l) with
+                                  | Some sp => Some (tr, sp) | None => None end
+                              | _, _ => None end) t)
+  end.
+
+(* the portion of a complex request: only traces of this hash class, or already found *)
+Definition in_portion (c : ctx) (t : string) : bool :=
+  Z.eqb (rf_max c) 0 || Z.eqb (Z.modulo (hash_toy t) (rf_max c)) (rf_i c) || existsb (String.eqb t) (cached c).
+
+Definition same_set (a b : list string) : bool :=
+  forallb (fun x => existsb (String.eqb x) b) a && forallb (fun x => existsb (String.eqb x) a) b.
+
+(* does the statement's answer agree with the meaning of the script: every returned trace matches, with
+   its matched spans; all matching traces are returned, or the `limit` most recent of them *)
+Definition result_ok (c : ctx) (all : list tres) (res : list (string * list string)) : bool :=
+  let keyed := flat_map (fun r => match find_tres (fst r) all with
+                                  | Some t => if same_set (snd r) (t_spans t) then [t] else []
+                                  | None => [] end) res in
+  Nat.eqb (List.length keyed) (List.length res)
+  && distinct_strs (map fst res)
+  && is_topk (limit c) all keyed.
+
+(* does the script carry a numeric literal with more than six decimals (finding float-literal-6-decimals) *)
+Definition long_dec (s : string) : bool := match parse_dec s with Some d => Nat.ltb 6 (d_flen d) | None => false end.
+Fixpoint exp_long_lit (e : attr_exp) : bool :=
+  match e with
+  | AExp h _ tl =>
+      match h with HTerm t => long_dec (v_f (a_val t)) | HParen e' => exp_long_lit e' end
+      || match tl with Some t' => exp_long_lit t' | None => false end
+  end.
+Fixpoint script_long_lit (s : script) : bool :=
+  match s with
+  | Script h _ tl =>
+      match sel_attr h with Some e => exp_long_lit e | None => false end
+      || match sel_agg h with Some g => long_dec (g_num g) | None => false end
+      || match tl with Some s' => script_long_lit s' | None => false end
+  end.
+
+(* 0 = agrees; 1 = the statement does not evaluate (unknown column, unsupported construct: ClickHouse
+   would answer with an error); 2 = evaluates to a different answer; 3 = differs from the meaning of the
+   script, but agrees with it once every literal with more than six decimals is rounded the way
+   FloatVal prints it (recorded finding) *)
+Definition sem_code (cs : case) (n : nat) (o : Z * obs) (d : db) : Z :=
+  let c := with_rf_i (c_ctx cs) (fst o) in
+  match stmt_of cs n o with
+  | None => 0%Z
+  | Some s =>
+      match index_rows c d s with
+      | None => 1%Z
+      | Some res =>
+          let all := fun rounded => filter (fun t => in_portion c (t_trace t)) (traceql_sem re_toy float_toy rounded c d (c_q cs)) in
+          if result_ok c (all false) res then 0%Z
+          else if script_long_lit (c_q cs) && result_ok c (all true) res then 3%Z else 2%Z
+      end
+  end.
+Fixpoint sem_calls (cs : case) (n : nat) (l : list (Z * obs)) : list Z :=
+  match l with
+  | [] => []
+  | o :: r => (map (sem_code cs n o) (c_dbs cs) ++ sem_calls cs (S n) r)%list
+  end.
+Definition has_attr_everywhere (q : script) : bool := all_have_attr q.
+(* only searches are judged here (tag / value listings answer with attribute names, not traces) and only
+   scripts without `{}` (answered from the traces table) *)
+Definition sem_case (cs : case) : Z :=
+  match c_mode cs with
+  | MSearch => if has_attr_everywhere (c_q cs) then fold_left Z.max (sem_calls cs 1 (c_obs cs)) 0%Z else 0%Z
+  | _ => 0%Z
+  end.
+Definition sem_violations (l : list case) : list (Z * Z) :=
+  flat_map (fun cs => let v := sem_case cs in if Z.eqb v 0 then [] else [(c_id cs, v)]) l.
